@@ -609,6 +609,12 @@ func (p *Pager) VisibleImage() (Image, error) {
 // DiskImage recomputes the logical image from the files alone: the database file overlaid with the
 // committed frames found by the harness's own walk of the WAL (salts + cumulative checksums).
 func DiskImage(dbDir string, pageSize uint32) (Image, error) {
+	return DiskImageUpTo(dbDir, pageSize, -1)
+}
+
+// DiskImageUpTo is DiskImage restricted to the first maxFrames frames of the WAL (-1 = all): the image
+// at the position LiteFS reports while a complete but not yet captured transaction sits in the log.
+func DiskImageUpTo(dbDir string, pageSize uint32, maxFrames int) (Image, error) {
 	im := Image{Pages: map[uint32][]byte{}}
 	b, err := os.ReadFile(filepath.Join(dbDir, "database"))
 	if err != nil {
@@ -637,7 +643,7 @@ func DiskImage(dbDir string, pageSize uint32) (Image, error) {
 	for r := uint32(1); r <= im.N; r++ {
 		im.Pages[r] = b[int64(r-1)*int64(pageSize) : int64(r)*int64(pageSize)]
 	}
-	frames, commitN := WalkWAL(filepath.Join(dbDir, "wal"), pageSize)
+	frames, commitN := walkWAL(filepath.Join(dbDir, "wal"), pageSize, maxFrames)
 	if commitN > 0 {
 		for r, data := range frames {
 			im.Pages[r] = data
@@ -653,6 +659,10 @@ func DiskImage(dbDir string, pageSize uint32) (Image, error) {
 // WalkWAL returns the last committed version of every page in the valid prefix of a WAL file and
 // the size recorded by the last commit frame (0 if there is no committed frame).
 func WalkWAL(path string, pageSize uint32) (map[uint32][]byte, uint32) {
+	return walkWAL(path, pageSize, -1)
+}
+
+func walkWAL(path string, pageSize uint32, maxFrames int) (map[uint32][]byte, uint32) {
 	b, err := os.ReadFile(path)
 	if err != nil || len(b) < 32 {
 		return nil, 0
@@ -678,7 +688,7 @@ func WalkWAL(path string, pageSize uint32) (map[uint32][]byte, uint32) {
 	tx := map[uint32][]byte{}
 	var commitN uint32
 	fs := 24 + int(pageSize)
-	for off := 32; off+fs <= len(b); off += fs {
+	for off, k := 32, 0; off+fs <= len(b) && (maxFrames < 0 || k < maxFrames); off, k = off+fs, k+1 {
 		h := b[off : off+24]
 		data := b[off+24 : off+fs]
 		if binary.BigEndian.Uint32(h[8:]) != s1 || binary.BigEndian.Uint32(h[12:]) != s2 {
@@ -706,3 +716,6 @@ func (p *Pager) HasHdr() bool { return p.hdr }
 
 // SetCommittedSize tells a fresh pager the committed database size (real pages) of an existing database.
 func (p *Pager) SetCommittedSize(n uint32) { p.walSizeN = n }
+
+// CommittedFrames is the number of frames of transactions that were committed (and captured).
+func (p *Pager) CommittedFrames() int { return p.mx }
